@@ -25,8 +25,11 @@ def parseProds (s : String) : List (List Nat) :=
 
 def cyc {α : Type} [Inhabited α] (xs : List α) (age : Nat) : α := xs.getD ((age - 1) % xs.length) default
 
-def step (toks : List String) : String :=
+partial def step (toks : List String) : String :=
   match toks with
+  -- the bond helpers are the same model with `value_for_bond` as mapper
+  | "bond" :: rest => step ("custom" :: rest)
+  | "temperbond" :: rest => step ("temper" :: rest)
   | ["custom", T, f, table] =>
     let tab := parseTable table
     render (calcSamples (· + 1) (fun a => a % 7) (bitsOf 16) (fun _ st => cyc tab (ofBits st)) (parseNat T) (parseFreq f) 0)
